@@ -9,6 +9,9 @@ mod c16;
 mod c17;
 mod c02;
 mod c11;
+mod c03;
+mod c18;
+mod c12;
 mod c19;
 mod ring;
 mod sched;
@@ -30,6 +33,9 @@ fn make(prop: &str) -> Option<Box<dyn Interp>> {
         "C17" => Some(Box::new(c17::C17::default())),
         "C02" => Some(Box::new(c02::Nest::default())),
         "C11" => Some(Box::new(c11::C11::default())),
+        "C03" => Some(Box::new(c03::C03::default())),
+        "C18" => Some(Box::new(c18::C18::default())),
+        "C12" => Some(Box::new(c12::C12::default())),
         "C19" => Some(Box::new(c19::C19::default())),
         "C04" | "C05" | "C06" | "C13" | "C14" => Some(Box::new(ring::Ring::default())),
         _ => None,
